@@ -10,7 +10,7 @@
 (*          property text (true block nesting, ideal entries).             *)
 (*                                                                         *)
 (* A command is a record                                                   *)
-(*   [k |-> lower-cased command name class, d |-> has a doccomment,        *)
+(*   [k |-> command name class, nm |-> lower-cased name, d |-> doccomment?, *)
 (*    a |-> single arguments as written, up |-> the same upper-cased,      *)
 (*    s |-> a with the kind's own strip pattern applied to every element,  *)
 (*    x |-> a with the member strip pattern applied, trig |-> the doc      *)
@@ -53,7 +53,8 @@ ImplInit == [ent |-> <<>>, top |-> <<>>, cls |-> <<>>, defs |-> <<>>, aw |-> 0, 
 
 Ext(st, i) == IF Len(st.ent) < i THEN [st EXCEPT !.ent = Append(@, NoEnt)] ELSE st
 Err(st) == [st EXCEPT !.errs = @ + 1]
-Raise(st, what) == [st EXCEPT !.exc = what]
+\* both callbacks wrap their body in try/except: logger.error, then re-raise
+Raise(st, what) == [st EXCEPT !.exc = what, !.errs = @ + 1]
 AddTop(st, i, e) == [st EXCEPT !.ent[i] = e, !.top = Append(@, i)]
 
 \* the NAME scan shared by ct_add_test / ct_add_section / add_test: last NAME wins,
@@ -136,7 +137,7 @@ ProcOption(st, c, i) ==
 
 ProcGeneric(st, c, i) ==
   \* single arguments first, then compound ones (D_GenericArgsRegrouped); in source order otherwise
-  AddTop(st, i, [Entry("generic", i, c) EXCEPT !.name = c.k,
+  AddTop(st, i, [Entry("generic", i, c) EXCEPT !.name = c.nm,
                     !.params = IF "D_GenericArgsRegrouped" \in Dev THEN c.a \o c.cpds ELSE c.ord])
 
 Process(st, c, i) ==
@@ -305,7 +306,7 @@ ReqStep(rq0, c, i, inc) ==
                                !.top = Append(@, i)]
          ELSE r
     [] OTHER ->   \* any other command: an entry iff it carries a doccomment, arguments as written and in order
-         IF c.d THEN [r EXCEPT !.ent[i] = [Entry("generic", i, c) EXCEPT !.name = c.k, !.params = c.ord],
+         IF c.d THEN [r EXCEPT !.ent[i] = [Entry("generic", i, c) EXCEPT !.name = c.nm, !.params = c.ord],
                                !.top = Append(@, i)]
          ELSE r
 
